@@ -43,8 +43,23 @@ func (d *segDev) Size() uint32           { return 16 }
 func (d *segDev) Clear()                 {}
 func (d *segDev) Dump(uint32) []byte     { return nil }
 
+// rigLight (set by monitors that need many rigs at once and do not judge device routing): one
+// device over the whole bus instead of one per segment.
+var rigLight = false
+
 func newRig() *cpuRig {
 	g := &cpuRig{bm: &mem.BusMem{}}
+	if rigLight {
+		g.bus, _ = bus.New()
+		if err := g.bus.Attach(g.bm, "all", 0, 0xFFFFFF); err != nil {
+			panic(err)
+		}
+		g.alt = new(cpualt.CPU)
+		g.alt.Init()
+		g.alt.Bus.AttachReader(0, 0xFFFFFF, func(a uint32) uint8 { return g.am.RdAddr(a) })
+		g.alt.Bus.AttachWriter(0, 0xFFFFFF, func(a uint32, v uint8) { g.am.WrAddr(a, v) })
+		return g
+	}
 	if altFirst {
 		g.alt = new(cpualt.CPU)
 		g.alt.Init()
